@@ -5,8 +5,9 @@ Core Lean only.
 
 Go `int`/`int64` positions are unbounded `Int` here (no 64-bit overflow: positions are below 2^62);
 `uint32` arithmetic (bin numbers, the running level offset `t` of csi.reg2bin) is modelled explicitly
-modulo 2^32.  Where Go would panic (index into the 11-entry `consume` table with an op type > 10) the
-model returns `none`.
+modulo 2^32.  `Consumes` is total since the repair fixes/C11-1-cigar-consumes-undefined-op.diff (an op
+type > 10, which a BAM CIGAR word can carry, consumes nothing); the `Option` results are kept so that
+the statements of C16 are unchanged, and C11 proves they are always `some`.
 -/
 import Hts.Model.GoPrim
 namespace Hts.Model.Coord
@@ -23,8 +24,9 @@ deriving DecidableEq, Repr
 def consumeTab : List (Int × Int) :=
   [(1, 1), (1, 0), (0, 1), (0, 1), (1, 0), (0, 0), (0, 0), (1, 1), (1, 1), (0, -1), (0, 0)]
 
-/-- `ct.Consumes()`; `none` is Go's index-out-of-range panic -/
-def consumes (t : Nat) : Option (Int × Int) := consumeTab[t]?
+/-- `ct.Consumes()`: `if int(ct) >= len(consume) { return Consume{} }; return consume[ct]`.
+(Before the repair fixes/C11-1 this was `consumeTab[t]?`, `none` being Go's index-out-of-range panic.) -/
+def consumes (t : Nat) : Option (Int × Int) := some (consumeTab.getD t (0, 0))
 
 def typH : Nat := 5
 def typS : Nat := 4
